@@ -23,9 +23,34 @@ func VerifyInclusion(iproof [][sha256.Size]byte, i, j uint64, iLeaf, jRoot [sha2
 		return false
 	}
 
+	if len(iproof) != inclusionProofLen(i, j) {
+		return false
+	}
+
 	ciRoot := EvalInclusion(iproof, i, j, iLeaf)
 
 	return jRoot == ciRoot
+}
+
+// inclusionProofLen returns the number of terms of the inclusion proof
+// for the i-th element in a tree of size j (1 <= i <= j)
+func inclusionProofLen(i, j uint64) int {
+	i1 := i - 1
+	j1 := j - 1
+
+	l := 0
+
+	for j1 > 0 {
+		// the right-most node of a level with an odd number of nodes has no sibling
+		if i1 != j1 || i1%2 == 1 {
+			l++
+		}
+
+		i1 >>= 1
+		j1 >>= 1
+	}
+
+	return l
 }
 
 func EvalInclusion(iproof [][sha256.Size]byte, i, j uint64, iLeaf [sha256.Size]byte) [sha256.Size]byte {
@@ -64,9 +89,43 @@ func VerifyConsistency(cproof [][sha256.Size]byte, i, j uint64, iRoot, jRoot [sh
 		return iRoot == jRoot
 	}
 
+	if i < j && !consistencyProofLenMatches(len(cproof), i, j) {
+		return false
+	}
+
 	ciRoot, cjRoot := EvalConsistency(cproof, i, j)
 
 	return iRoot == ciRoot && jRoot == cjRoot
+}
+
+// consistencyProofLenMatches reports whether a consistency proof between
+// tree sizes i and j (1 <= i < j) may consist of n terms (n > 0)
+func consistencyProofLenMatches(n int, i, j uint64) bool {
+	fn := i - 1
+	sn := j - 1
+
+	for fn%2 == 1 {
+		fn >>= 1
+		sn >>= 1
+	}
+
+	for k := 1; k < n; k++ {
+		if sn == 0 {
+			return false
+		}
+
+		if fn%2 == 1 || fn == sn {
+			for fn%2 == 0 && fn != 0 {
+				fn >>= 1
+				sn >>= 1
+			}
+		}
+
+		fn >>= 1
+		sn >>= 1
+	}
+
+	return sn == 0
 }
 
 func EvalConsistency(cproof [][sha256.Size]byte, i, j uint64) ([sha256.Size]byte, [sha256.Size]byte) {
@@ -110,6 +169,10 @@ func EvalConsistency(cproof [][sha256.Size]byte, i, j uint64) ([sha256.Size]byte
 
 func VerifyLastInclusion(iproof [][sha256.Size]byte, i uint64, leaf, root [sha256.Size]byte) bool {
 	if i == 0 {
+		return false
+	}
+
+	if len(iproof) != inclusionProofLen(i, i) {
 		return false
 	}
 
